@@ -138,6 +138,56 @@ theorem splitSlash_append_slash' (a b : List Char) :
       rw [splitSlash_eq_head_tail cs]
       simp
 
+theorem takeWhile_all {p : Char → Bool} (l : List Char) (h : ∀ a ∈ l, p a = true) : l.takeWhile p = l := by
+  induction l with
+  | nil => rfl
+  | cons x xs ih => rw [List.takeWhile_cons, h x (by simp), if_pos rfl, ih (fun a ha => h a (List.mem_cons_of_mem _ ha))]
+
+theorem dropWhile_all {p : Char → Bool} (l : List Char) (h : ∀ a ∈ l, p a = true) : l.dropWhile p = [] := by
+  induction l with
+  | nil => rfl
+  | cons x xs ih => rw [List.dropWhile_cons, h x (by simp), if_pos rfl, ih (fun a ha => h a (List.mem_cons_of_mem _ ha))]
+
+/-! ## URL normalisation leaves dot-free names alone -/
+theorem normalize_fold (acc xs : List (List Char)) (h : ∀ x ∈ xs, x ≠ dot ∧ x ≠ dotdot) :
+    xs.foldl (fun out c =>
+      if c = dot then out
+      else if c = dotdot then (if out ≠ [] ∧ out ≠ [[]] then out.dropLast else out)
+      else out ++ [c]) acc = acc ++ xs := by
+  induction xs generalizing acc with
+  | nil => simp
+  | cons x xs ih =>
+    obtain ⟨h1, h2⟩ := h x (by simp)
+    rw [List.foldl_cons, if_neg h1, if_neg h2, ih _ (fun y hy => h y (List.mem_cons_of_mem _ hy))]
+    simp
+
+/-- names without dot segments and without `? # % +` reach the B2 download URL unchanged -/
+theorem b2Addr_safe (n : Name) (hdot : hasDotSegment n = false)
+    (hchars : ∀ c ∈ n, c ≠ '?' ∧ c ≠ '#' ∧ c ≠ '%' ∧ c ≠ '+') : b2Addr n = some n := by
+  have hcut : n.takeWhile (fun c => decide (c ≠ '?' ∧ c ≠ '#')) = n := by
+    apply takeWhile_all
+    intro c hc
+    have := hchars c hc
+    simp [this.1, this.2.1]
+  have hany : n.any (fun c => decide (c = '%' ∨ c = '+')) = false := by
+    simp only [List.any_eq_false, decide_eq_true_eq, not_or]
+    intro c hc
+    exact ⟨(hchars c hc).2.2.1, (hchars c hc).2.2.2⟩
+  have hsegs : ∀ x ∈ [[], "file".toList, "bucket".toList] ++ splitSlash n, x ≠ dot ∧ x ≠ dotdot := by
+    intro x hx
+    rcases List.mem_append.mp hx with hx | hx
+    · simp only [List.mem_cons, List.not_mem_nil, or_false] at hx
+      rcases hx with rfl | rfl | rfl <;> decide
+    · unfold hasDotSegment at hdot
+      simp only [List.any_eq_false, decide_eq_true_eq, not_or] at hdot
+      exact hdot x hx
+  unfold b2Addr
+  simp only [hcut, hany, Bool.false_eq_true, if_false]
+  unfold normalizeComponents
+  rw [normalize_fold [] _ hsegs]
+  simp only [List.nil_append, List.cons_append]
+  simp [splitSlash_ne_nil, joinSlash_splitSlash]
+
 /-! ## valid segments, paths, names -/
 theorem validSeg_iff (s : Seg) : validSeg s = true ↔ s ≠ [] ∧ '/' ∉ s ∧ s ≠ dot ∧ s ≠ dotdot := by
   simp [validSeg]
